@@ -187,7 +187,7 @@ class ManifestMachine(FormatMachine):
     def op_dump(self, op):
         s = self.slot(op)
         r = FormatMachine.op_dump(self, op)
-        if r == "ok" and self.ATTR == "rpms":
+        if r == "ok" and self.ATTR == "rpms" and self.watching("C10"):
             doc = json.loads(self.fs.get(self.path(op)).decode("utf-8"))
             binary = [a for a in rpm_arches() if a not in ("src", "nosrc")]
             for variant, arches in doc["payload"]["rpms"].items():
@@ -276,7 +276,7 @@ class RpmsMachine(ManifestMachine):
     def op_restart(self, op):
         s = self.slot(op)
         r = ManifestMachine.op_restart(self, op)
-        if r in ("restarted", "upgraded"):
+        if r in ("restarted", "upgraded") and self.watching("C10"):
             binary = [a for a in rpm_arches() if a not in ("src", "nosrc")]
             for variant, arches in s.obj.rpms.items():
                 for arch in arches:
